@@ -63,8 +63,43 @@ def sub(tier, cfg, out):
         else:
             key, msg = 'uninit:' + fname, r
         viol.append({'key': '%s:%s' % (key, fname), 'fn': fname, 'case': cat.enc_case(case), 'msg': '%s: %s  [%s, cfg %s]' % (fname, msg, cat.short(case), cfg)})
-    json.dump({'n': len(cases), 'fns': fns, 'viol': viol}, open(out, 'w'))
+    # word-level layer (the _keep/_deep sweep of the plan): the C05 catalogue re-executed in THIS sanitizer configuration, every
+    # operand its own exact-size allocation (no harness guard: the redzone also sees over-reads), every scratch stack exactly
+    # xxx_deep() octets; only memory-safety outcomes are judged here (values are C05's business)
+    wl = word_level(tier, cfg)
+    json.dump({'n': len(cases), 'fns': fns, 'viol': viol, 'word': wl}, open(out, 'w'))
     return 0
+
+class _Collector:
+    """stands in for vf.Check while the C05 catalogue runs inside a C07 sub-exploration"""
+    def __init__(self):
+        self.viol = []; self.caps = []; self.parts = {}
+    def violation(self, key, rec, msg):
+        self.viol.append((key, rec, msg))
+    def outcome(self, *a, **k): pass
+    def sample(self, *a, **k): pass
+    def observe(self, *a, **k): pass
+    def cap(self, what): self.caps.append(what)
+    def expired(self): return False
+    def part(self, name, **kw): self.parts[name] = {k: v for k, v in kw.items() if isinstance(v, (int, float))}
+
+MEMCLASS = ('stack-overrun', 'buffer-overrun', 'const-modified', 'crash', 'hang')
+def word_level(tier, cfg, classes=MEMCLASS):
+    import C05, c05_calls as CC
+    CC.CFGS[:] = [cfg]
+    t = 'quick' if tier == 'quick' else 'thorough'
+    if tier == 'quick':
+        C05.NMAX = dict(C05.NMAX, quick=6)          # lengths 0..6 (ppMul additionally 10..13) in the per-change run
+    C05.prepare(t)
+    col = _Collector()
+    C05.catalogue(col, t, None)
+    out = []
+    for key, rec, msg in col.viol:
+        cls = key.split(':', 1)[1] if ':' in key else key
+        if classes is None or cls.split('/')[0] in classes:
+            out.append({'key': 'word:' + key, 'rec': rec, 'msg': msg})
+    p = col.parts.get('catalogue_calls', {})
+    return {'viol': out, 'calls': int(p.get('evaluations', 0)), 'cells': int(p.get('cells', 0)), 'functions': int(p.get('functions', 0)), 'caps': col.caps}
 
 def thin(cases):
     """quick tier: at most 60 cases per function, evenly spread (the full corpora run in thorough)"""
@@ -96,6 +131,15 @@ def run(tier):
                  functions=len(d['fns']))
         for f in d['fns']:
             chk.outcome(f)
+        w = d.get('word')
+        if w:
+            for v in w['viol']:
+                chk.violation(v['key'], v['rec'], v['msg'])
+            for c in w['caps']:
+                chk.cap('word level [%s]: %s' % (cfg, c))
+            chk.part('word_level_' + cfg, states=w['cells'], transitions=w['calls'], traces_validated_against_impl=w['calls'], evaluations=w['calls'],
+                     functions=w['functions'])
+    chk.sample({'word_level': 'the C05 catalogue (ww/zz/pp functions, both editions, lengths 0..6 quick / 0..20 thorough, ppMul 10..13) with exact-size operands and exactly xxx_deep() stacks under ASan'})
     chk.sample({'cfg': 'asan', 'fn': 'beltCBCEncr', 'case': 'src[17] key[32] iv[16]', 'fills': ['0x00', '0xA5']})
     chk.assumptions += ['deciding detectors: AddressSanitizer, -fsanitize=bounds, the library ASSERTs (active), two-fill non-interference; other UBSan kinds '
                         '(alignment, signed overflow in u16 promotion, NULL+0) are not memory-safety statements of C07 and are not enabled',
@@ -104,10 +148,20 @@ def run(tier):
     return chk.finish('C07', 'the corpora of C01/C03/... replayed through exact-size allocations (own malloc block per buffer, blob page size 1) under ASan+bounds '
                       'with ASSERT active, twice (fill 0x00 / 0xA5), per word configuration; states = functions covered, transitions = sanitised executions')
 
+def _replay_word(rec):
+    import c05_calls as CC
+    return CC.replay_call(rec)
+
 def replay(rec):
     global _cfg
     corpora.load_all()
     _cfg = rec['cfg']
+    if rec.get('kind') == 'call':          # word-level record: C05's replay in the recorded (sanitizer) configuration
+        import C05
+        r = vf.pmap(_replay_word, [rec], nproc=1, case_timeout=60)[0]
+        if isinstance(r, dict):
+            return classify(r.get('stderr', '') or r.get('crash', ''))[1]
+        return r
     if rec.get('kind') != 'case':
         return None
     # run in a child so that a sanitizer abort is observed, not suffered
